@@ -87,6 +87,47 @@ MUTANTS = [
   "                    Value::Integer(x) if x == 0 => {\n                      Err(take_cf_content(E::error::<V>(\n                          None,\n                          ErrorKind::Unexpected {\n                              msg: format!(\n                                  \"an integer value was expected, but found a zero\"\n                              ),", ["C05"]),
 ]
 
+
+# Semantics-preserving changes (rewording, reordering of independent things): NO check may fire on them.
+BENIGN = [
+ ("benign_reword_too_large", "src/impls.rs",
+  "\"value: `{x}` is too large to be deserialized, maximum value authorized is `{}`\"",
+  "\"the number {x} exceeds the maximum {}\"", "all"),
+ ("benign_reword_too_small", "src/impls.rs",
+  "\"value: `{x}` is too small to be deserialized, minimum value authorized is `{}`\"",
+  "\"the number {x} is below the minimum {}\"", "all"),
+ ("benign_reword_char", "src/impls.rs",
+  "\"expected a string of one character, but found the following string of {} characters: `{}`\"",
+  "\"exactly one character is needed, got {} in {:?}-ish text `{1}`\"", "first"),
+ ("benign_reword_zero", "src/impls.rs",
+  "\"a non-zero integer value lower than `{}` was expected, but found a zero\"",
+  "\"zero is not allowed here: the value must be non-zero and at most {}\"", "all"),
+ ("benign_reword_map_key", "src/impls.rs",
+  "the key \\\"{string_key}\\\" could not be deserialized into the key type `{}`",
+  "cannot read the key {string_key:?} as a `{}`", "all"),
+ ("benign_reword_tag", "derive/src/derive_enum.rs",
+  "\"Incorrect tag value\"", "\"this tag names no variant\"", "all"),
+ ("benign_json_wording", "src/errors/json.rs",
+  "\"Invalid value type{location}: expected {expected}, but found {received}\"",
+  "\"Wrong type{location}: wanted {expected}, got {received}\"", "all"),
+ ("benign_json_missing_wording", "src/errors/json.rs",
+  "\"Missing field `{field}`{location}\"", "\"The field `{field}` is absent{location}\"", "all"),
+ ("benign_did_you_mean_wording", "src/errors/helpers.rs",
+  "\"did you mean `{}`? \"", "\"maybe `{}`? \"", "all"),
+ ("benign_accepted_kinds_order", "src/impls.rs",
+  "accepted: &[ValueKind::Integer, ValueKind::NegativeInteger],",
+  "accepted: &[ValueKind::NegativeInteger, ValueKind::Integer],", "all"),
+ ("benign_kind_names", "src/errors/json.rs",
+  "ValueKind::Boolean => \"a boolean\",", "ValueKind::Boolean => \"a bool\",", "all"),
+ ("benign_query_wording", "src/errors/query_params.rs",
+  "\"Invalid value type{location}: expected {expected}, but found {received}\"",
+  "\"Bad parameter type{location}: wanted {expected}, got {received}\"", "all"),
+ ("benign_vec_no_capacity", "src/impls.rs",
+  "let mut vec = Vec::with_capacity(seq.len());", "let mut vec = Vec::new();", "all"),
+ ("benign_unknown_value_wording", "src/errors/json.rs",
+  "\"Unknown value `{}`{location}: {}expected one of {}\"", "\"The value `{}`{location} is not known: {}it must be one of {}\"", "all"),
+]
+
 PROPS = ["C01","C02","C03","C04","C05","C06","C07","C08","C09","C10","C11","C12","C13","C14","C15","C17","C18","C19"]  # C16 / C20 have their own build paths: see seeded_eval.py
 
 def sh(cmd, **kw):
@@ -149,6 +190,26 @@ def main():
             results["mutants"][name] = {"file": f, "caught_by": caught, "expected": expect, "missed": missed, "infra": infra,
                                          "signatures": {p: res[p]["signatures"] for p in caught}}
         open(path, "w").write(s)
+        json.dump(results, open("/verif/tools/mutation_matrix.json", "w"), indent=1)
+    # ---- benign changes: any firing check is a false alarm of the harness
+    if not want or "benign" in want:
+        fa = {}
+        for name, f, old, new, mode in BENIGN:
+            path = f"{MREPO}/{f}"
+            src = open(path).read()
+            if src.count(old) < 1:
+                print(f"!! {name}: pattern not found"); fa[name] = {"error": "pattern not found"}; continue
+            open(path, "w").write(src.replace(old, new) if mode == "all" else src.replace(old, new, 1))
+            r = sh(f"cd {MH} && cargo build -q -p dv_check")
+            if r.returncode != 0:
+                print(f"!! {name}: does not compile\n{r.stderr[-1200:]}"); fa[name] = {"error": "does not compile"}
+            else:
+                res = run_props(PROPS)
+                fired = {p: v["signatures"][:3] for p, v in res.items() if v["exit"] != 0}
+                print(f"{name}: {'silent' if not fired else 'FALSE ALARM ' + json.dumps(fired)}")
+                fa[name] = {"file": f, "fired": fired}
+            open(path, "w").write(src)
+        results["benign"] = fa
         json.dump(results, open("/verif/tools/mutation_matrix.json", "w"), indent=1)
     print("done")
 
